@@ -9,7 +9,7 @@ FUNCTIONS = ["bufferevent_socket_connect", "bufferevent_connect_getaddrinfo_cb",
              "bufferevent_decref_and_unlock_", "bufferevent_finalize_cb_", "be_socket_setfd", "be_socket_destruct", "bufferevent_enable", "bufferevent_disable"]
 BOUNDS = ("operation shapes of length <= 5 listed in props/C19.py (connect: in progress / immediate / refused / error; hostname lookup ok / fail / cancel; write event: "
           "connected / failed / pending / wrote / error / 0; read event: data / EOF / error / retry / ECONNREFUSED; run deferred; setcb(NULL); free; enable/disable; "
-          "trigger), options 0, DEFER, DEFER|THREADSAFE, DEFER|UNLOCK|THREADSAFE; the application optionally frees / clears callbacks / disables reading from inside "
+          "trigger; read high-water mark 4; application drains its input), options 0, DEFER, DEFER|UNLOCK, DEFER|THREADSAFE, DEFER|UNLOCK|THREADSAFE; the application optionally frees / clears callbacks / disables reading from inside "
           "a chosen callback kind; errno values inside an operation are symbolic, byte counts are concrete (3 read, 5 queued, 2 or all written: the count does not influence the lifecycle code)")
 OUT = ("pair/filter/TLS bufferevents; callback order BETWEEN the two directions in one deferred run (the code runs read, write, then event callbacks; only CONNECTED-first "
        "and data-before-EOF/ERROR per direction are asserted); calls from other threads (C09) -- THREADSAFE only adds the lock monitor; real DNS; base free; "
@@ -56,6 +56,13 @@ S = [
  ("defuts_free_in_readcb", "REV_DATA,REV_EOF,RUN_DEFERRED", DUT, 5, [(R, "0")], (R, "FREE"), "q"),
  ("defuts_clear_in_readcb", "REV_DATA,REV_EOF,RUN_DEFERRED", DUT, 5, [(R, "0")], (R, "SETCB_NULL"), "t"),
  ("defts_free_in_eventcb", "REV_DATA,REV_EOF,RUN_DEFERRED", DT, 5, [(R, "0"), (E, RD_EOF)], (E, "FREE"), "t"),
+ ("io_wm_eof_drain", "SET_WM_HIGH4,REV_DATA,REV_EOF,APP_DRAIN,REV_EOF,REV_DATA", "0", 5, [(R, "0"), (E, RD_EOF)], None, "q"),
+ ("io_wm_drain_in_eofcb", "SET_WM_HIGH4,REV_DATA,REV_EOF,REV_EOF", "0", 5, [(R, "0"), (E, RD_EOF)], (E, "APP_DRAIN"), "q"),
+ ("io_wm_err_drain", "SET_WM_HIGH4,REV_DATA,REV_ERR,APP_DRAIN,REV_EOF", "0", 5, [(R, "0"), (E, RD_ERR)], None, "t"),
+ ("def_wm_eof_drain", "SET_WM_HIGH4,REV_DATA,REV_EOF,RUN_DEFERRED,APP_DRAIN,REV_EOF,RUN_DEFERRED", D, 5, [(R, "0"), (E, RD_EOF)], None, "q"),
+ ("conn_defu_ok", "ENABLE_R,CONNECT_INPROGRESS,WEV_CONNECTED,REV_DATA,RUN_DEFERRED,RUN_DEFERRED", "BEV_OPT_DEFER_CALLBACKS|BEV_OPT_UNLOCK_CALLBACKS", -1, [(E, CONN), (R, "0")], None, "q"),
+ ("conn_defuts_ok", "ENABLE_R,CONNECT_INPROGRESS,WEV_CONNECTED,REV_DATA,REV_EOF,RUN_DEFERRED,RUN_DEFERRED", DUT, -1, [(E, CONN), (R, "0"), (E, RD_EOF)], None, "q"),
+ ("conn_defuts_immediate", "CONNECT_IMMEDIATE,RUN_DEFERRED,WEV_CONNECTED,RUN_DEFERRED", DUT, -1, [(E, CONN)], None, "t"),
  ("conn_ok", "ENABLE_R,CONNECT_INPROGRESS,WEV_CONNPENDING,WEV_CONNECTED,REV_DATA", "0", -1, [(E, CONN), (R, "0")], None, "q"),
  ("conn_fail", "ENABLE_R,CONNECT_INPROGRESS,WEV_CONNFAIL,WEV_CONNECTED,REV_DATA", "0", -1, [(E, ERR)], None, "q"),
  ("conn_once", "CONNECT_INPROGRESS,WEV_CONNECTED,WEV_CONNECTED,APP_WRITE,WEV_WRITE_ALL", "0", -1, [(E, CONN), (W, "0")], None, "q"),
